@@ -30,6 +30,10 @@ pub struct World {
     pub client_password: String,
     scfg: ServerConfig<sv::SslConfig>,
     links: Arc<std::sync::Mutex<Vec<tokio::task::AbortHandle>>>,
+    /// milliseconds for which the link holds the NEXT connection it accepts before it carries anything for it (0: none)
+    stall_next: Arc<std::sync::atomic::AtomicU64>,
+    /// the link resets the NEXT connection it accepts (towards the client) right behind the first answer it has carried
+    reset_behind_answer: Arc<std::sync::atomic::AtomicBool>,
     baseline: std::sync::Mutex<Option<(usize, usize)>>,
     /// client-server transport is quic (a connection's driver task outlives its streams until the connection has drained)
     quic: bool,
@@ -133,17 +137,63 @@ impl World {
         let mut tasks = vec![];
         tasks.push(rt.spawn(sv::startup(scfg.clone())));
         let links: Arc<std::sync::Mutex<Vec<tokio::task::AbortHandle>>> = Arc::default();
+        let stall_next: Arc<std::sync::atomic::AtomicU64> = Arc::default();
+        let reset_behind_answer: Arc<std::sync::atomic::AtomicBool> = Arc::default();
         let is2022 = cipher.starts_with("2022");
         if link {
             let links = links.clone();
+            let stall_next = stall_next.clone();
+            let reset_behind_answer = reset_behind_answer.clone();
             let l = rt.block_on(TcpListener::bind(("127.0.0.1", link_port)))?;
             rt.spawn(async move {
                 while let Ok((a, _)) = l.accept().await {
+                    let hold = stall_next.swap(0, std::sync::atomic::Ordering::SeqCst);
+                    let reset = reset_behind_answer.swap(false, std::sync::atomic::Ordering::SeqCst);
                     let h = tokio::spawn(async move {
+                        if hold > 0 {
+                            // this connection's bytes are held back for a while (its handshake stalls), the others' are not
+                            tokio::time::sleep(Duration::from_millis(hold)).await;
+                        }
                         if let Ok(b) = TcpStream::connect(("127.0.0.1", server_port)).await {
                             let _ = a.set_nodelay(true);
                             let _ = b.set_nodelay(true);
                             let (mut a, mut b) = (a, b);
+                            if reset {
+                                // the link fails right behind data: everything the server sends within a moment of its first
+                                // byte is carried to the client in one piece, and the connection is reset behind it
+                                let (mut br, mut bw) = b.into_split();
+                                let mut all = vec![];
+                                let (mut buf_a, mut buf_b) = (vec![0u8; 65536], vec![0u8; 65536]);
+                                loop {
+                                    tokio::select! {
+                                        r = a.read(&mut buf_a) => match r {
+                                            Ok(0) | Err(_) => return,
+                                            Ok(k) => {
+                                                if bw.write_all(&buf_a[..k]).await.is_err() {
+                                                    return;
+                                                }
+                                            }
+                                        },
+                                        r = br.read(&mut buf_b) => match r {
+                                            Ok(0) | Err(_) => return,
+                                            Ok(k) => {
+                                                all.extend_from_slice(&buf_b[..k]);
+                                                break;
+                                            }
+                                        },
+                                    }
+                                }
+                                while let Ok(Ok(k)) = tokio::time::timeout(Duration::from_millis(120), br.read(&mut buf_b)).await {
+                                    if k == 0 {
+                                        break;
+                                    }
+                                    all.extend_from_slice(&buf_b[..k]);
+                                }
+                                let _ = a.write_all(&all).await;
+                                let _ = a.set_linger(Some(Duration::from_secs(0)));
+                                drop(a);
+                                return;
+                            }
                             if chop {
                                 // forward in small pieces of changing size with tiny pauses: the peer's reads end anywhere inside frames
                                 async fn pump(mut r: tokio::net::tcp::OwnedReadHalf, mut w: tokio::net::tcp::OwnedWriteHalf, mut x: u64, mut first: Option<usize>) {
@@ -215,6 +265,8 @@ impl World {
             client_password: client_password.to_owned(),
             scfg,
             links,
+            stall_next,
+            reset_behind_answer,
             baseline: std::sync::Mutex::new(None),
             quic: tls == Some("quic"),
         })
@@ -318,6 +370,74 @@ impl World {
     /// and its answer) and keeping its socket: how many got their answer, and how many connections the client then
     /// holds towards the server (for the protocols that carry datagrams inside the transport: one per live association —
     /// an association that the client has evicted must have given its connection back)
+    /// a flow that only receives (one datagram out, then its target goes on answering) while `n` short flows come and go,
+    /// more of them than the client keeps bindings: the answers keep the long flow's binding in use, so it is the short,
+    /// finished ones that make room - the long flow goes on receiving
+    pub fn udp_receive_only_survives(&self, n: usize) -> String {
+        if !self.udp {
+            return "no-udp".to_owned();
+        }
+        let cp = self.client_port;
+        self.rt.block_on(async move {
+            let (Ok(streamer), Ok(echo)) = (UdpSocket::bind("127.0.0.1:0").await, UdpSocket::bind("127.0.0.1:0").await) else { return "no-loopback".to_owned() };
+            let (sport, eport) = (streamer.local_addr().unwrap().port(), echo.local_addr().unwrap().port());
+            let stop = Arc::new(std::sync::atomic::AtomicBool::new(false));
+            let stop2 = stop.clone();
+            tokio::spawn(async move {
+                let mut buf = vec![0u8; 2048];
+                if let Ok(Ok((_, from))) = tokio::time::timeout(Duration::from_secs(5), streamer.recv_from(&mut buf)).await {
+                    let mut i = 0u32;
+                    while !stop2.load(std::sync::atomic::Ordering::SeqCst) && i < 4000 {
+                        let _ = streamer.send_to(format!("tick {}", i).as_bytes(), from).await;
+                        i += 1;
+                        tokio::time::sleep(Duration::from_millis(10)).await;
+                    }
+                }
+            });
+            tokio::spawn(async move {
+                let mut buf = vec![0u8; 2048];
+                while let Ok(Ok((l, from))) = tokio::time::timeout(Duration::from_secs(5), echo.recv_from(&mut buf)).await {
+                    let _ = echo.send_to(&buf[..l], from).await;
+                }
+            });
+            let datagram = |port: u16, body: &[u8]| {
+                let mut d = vec![0u8, 0, 0, 1, 127, 0, 0, 1];
+                d.extend_from_slice(&port.to_be_bytes());
+                d.extend_from_slice(body);
+                d
+            };
+            let Ok(long) = UdpSocket::bind("127.0.0.1:0").await else { return "no-loopback".to_owned() };
+            let _ = long.send_to(&datagram(sport, b"subscribe"), ("127.0.0.1", cp)).await;
+            let mut buf = vec![0u8; 2048];
+            if !matches!(tokio::time::timeout(Duration::from_secs(3), long.recv_from(&mut buf)).await, Ok(Ok(_))) {
+                stop.store(true, std::sync::atomic::Ordering::SeqCst);
+                return "stream=never-started".to_owned();
+            }
+            let mut ok = 0;
+            let mut shorts = vec![];
+            for i in 0..n {
+                let Ok(app) = UdpSocket::bind("127.0.0.1:0").await else { break };
+                let d = datagram(eport, format!("hello {}", i).as_bytes());
+                let _ = app.send_to(&d, ("127.0.0.1", cp)).await;
+                if let Ok(Ok((l, _))) = tokio::time::timeout(Duration::from_secs(3), app.recv_from(&mut buf)).await {
+                    ok += (buf[..l] == d[..]) as usize;
+                }
+                shorts.push(app);
+            }
+            // what is still queued for the long flow is read away; then fresh ticks must go on arriving
+            while let Ok(Ok(_)) = tokio::time::timeout(Duration::from_millis(5), long.recv_from(&mut buf)).await {}
+            let mut fresh = 0;
+            for _ in 0..3 {
+                if let Ok(Ok(_)) = tokio::time::timeout(Duration::from_millis(700), long.recv_from(&mut buf)).await {
+                    fresh += 1;
+                }
+            }
+            stop.store(true, std::sync::atomic::Ordering::SeqCst);
+            drop(shorts);
+            format!("stream={} answered={}", if fresh == 3 { "alive" } else { "lost" }, ok)
+        })
+    }
+
     pub fn udp_bind_many(&self, n: usize) -> String {
         if !self.udp {
             return "no-udp".to_owned();
@@ -1004,6 +1124,126 @@ impl World {
             eprintln!("flood: sessions={} sent={} answers={}", npeers, sent_ctr.load(std::sync::atomic::Ordering::SeqCst), answers.load(std::sync::atomic::Ordering::SeqCst));
         }
         "done".to_owned()
+    }
+
+    /// head-of-line probe on the client's udp side: application A has a binding that works; application B's first datagram
+    /// opens a new binding whose connection to the server stalls in its handshake (the link holds that one connection's
+    /// bytes for `hold` ms); meanwhile A's next datagram must be answered as promptly as before.  Plain threads, blocking
+    /// sockets, own clock.  Only for protocols that carry datagrams inside a connection, behind a link.
+    pub fn udp_head_of_line(&self, hold: u64) -> String {
+        if !self.udp || self.protocol == "shadowsocks" || self.link_port == self.server_port {
+            return "n/a".to_owned();
+        }
+        let cp = self.client_port;
+        let mk_target = || -> Option<(std::net::UdpSocket, u16)> {
+            let t = std::net::UdpSocket::bind("127.0.0.1:0").ok()?;
+            let p = t.local_addr().ok()?.port();
+            Some((t, p))
+        };
+        let (Some((t1, p1)), Some((_t2, p2))) = (mk_target(), mk_target()) else { return "no-loopback".to_owned() };
+        let stop = Arc::new(std::sync::atomic::AtomicBool::new(false));
+        let echo = {
+            let stop = stop.clone();
+            let _ = t1.set_read_timeout(Some(Duration::from_millis(50)));
+            std::thread::spawn(move || {
+                let mut buf = [0u8; 2048];
+                while !stop.load(std::sync::atomic::Ordering::SeqCst) {
+                    if let Ok((l, from)) = t1.recv_from(&mut buf) {
+                        let _ = t1.send_to(&buf[..l], from);
+                    }
+                }
+            })
+        };
+        let datagram = |port: u16, body: &[u8]| -> Vec<u8> {
+            let mut d = vec![0u8, 0, 0, 1, 127, 0, 0, 1];
+            d.extend_from_slice(&port.to_be_bytes());
+            d.extend_from_slice(body);
+            d
+        };
+        let verdict = (|| -> String {
+            let (Ok(a), Ok(b)) = (std::net::UdpSocket::bind("127.0.0.1:0"), std::net::UdpSocket::bind("127.0.0.1:0")) else { return "no-loopback".to_owned() };
+            let _ = a.set_read_timeout(Some(Duration::from_millis(hold + 4000)));
+            let mut buf = [0u8; 2048];
+            // A's binding is established and answers
+            let _ = a.send_to(&datagram(p1, b"first"), ("127.0.0.1", cp));
+            match a.recv_from(&mut buf) {
+                Ok((l, _)) if buf[..l].ends_with(b"first") => {}
+                _ => return "no-first-answer".to_owned(),
+            }
+            // B's binding: its connection is the next one the link accepts, and it is held
+            self.stall_next.store(hold, std::sync::atomic::Ordering::SeqCst);
+            let _ = b.send_to(&datagram(p2, b"opens-a-binding"), ("127.0.0.1", cp));
+            std::thread::sleep(Duration::from_millis(200));
+            if self.stall_next.load(std::sync::atomic::Ordering::SeqCst) != 0 {
+                self.stall_next.store(0, std::sync::atomic::Ordering::SeqCst);
+                return "n/a:no-new-connection".to_owned();
+            }
+            let t0 = std::time::Instant::now();
+            let _ = a.send_to(&datagram(p1, b"second"), ("127.0.0.1", cp));
+            let ok = matches!(a.recv_from(&mut buf), Ok((l, _)) if buf[..l].ends_with(b"second"));
+            let ms = t0.elapsed().as_millis();
+            if ok && ms < PROMPT.as_millis() { "served".to_owned() } else if ok { format!("waited:{}ms", ms) } else { format!("lost:{}ms", ms) }
+        })();
+        stop.store(true, std::sync::atomic::Ordering::SeqCst);
+        let _ = echo.join();
+        // let the held connection run its course before anything else is measured
+        std::thread::sleep(Duration::from_millis(300));
+        verdict
+    }
+
+    /// the link between client and server fails right behind data: the target answers `size` bytes, the link carries the
+    /// answer to the client in one piece and resets the connection behind it.  What the client had received is delivered
+    /// to the application before its end-of-stream (plain threads, blocking sockets).
+    pub fn link_reset_behind_answer(&self, size: usize) -> String {
+        use std::io::{Read, Write};
+        if self.link_port == self.server_port || self.quic {
+            return "n/a".to_owned();
+        }
+        let Ok(target) = std::net::TcpListener::bind("127.0.0.1:0") else { return "no-loopback".to_owned() };
+        let tp = target.local_addr().unwrap().port();
+        let answer: Vec<u8> = (0..size).map(|i| (i * 31 + 7) as u8).collect();
+        let answer2 = answer.clone();
+        let _ = target.set_nonblocking(true);
+        let served = std::thread::spawn(move || {
+            let t0 = std::time::Instant::now();
+            while t0.elapsed() < Duration::from_secs(10) {
+                if let Ok((mut s, _)) = target.accept() {
+                    let _ = s.set_nonblocking(false);
+                    let _ = s.set_read_timeout(Some(Duration::from_secs(8)));
+                    let mut b = [0u8; 4];
+                    if s.read_exact(&mut b).is_ok() {
+                        let _ = s.write_all(&answer2);
+                        // stays open: the end the application sees is the link's doing
+                        std::thread::sleep(Duration::from_millis(1500));
+                    }
+                    return;
+                }
+                std::thread::sleep(Duration::from_millis(5));
+            }
+        });
+        self.reset_behind_answer.store(true, std::sync::atomic::Ordering::SeqCst);
+        let verdict = (|| -> String {
+            let Ok(mut c) = std::net::TcpStream::connect(("127.0.0.1", self.client_port)) else { return "connect-failed".to_owned() };
+            let _ = c.set_read_timeout(Some(Duration::from_secs(8)));
+            let mut b = [0u8; 10];
+            let mut a = vec![5u8, 1, 0, 1, 127, 0, 0, 1];
+            a.extend_from_slice(&tp.to_be_bytes());
+            if !(c.write_all(&[5, 1, 0]).is_ok() && c.read_exact(&mut b[..2]).is_ok() && c.write_all(&a).is_ok() && c.read_exact(&mut b).is_ok() && b[1] == 0 && c.write_all(b"ping").is_ok()) {
+                return "handshake-failed".to_owned();
+            }
+            let mut got = vec![];
+            let mut buf = [0u8; 4096];
+            loop {
+                match c.read(&mut buf) {
+                    Ok(0) | Err(_) => break,
+                    Ok(k) => got.extend_from_slice(&buf[..k]),
+                }
+            }
+            if got == answer { "answer=complete".to_owned() } else if answer.starts_with(&got) { format!("answer=lost:{}of{}", got.len(), answer.len()) } else { "answer=altered".to_owned() }
+        })();
+        self.reset_behind_answer.store(false, std::sync::atomic::Ordering::SeqCst);
+        let _ = served.join();
+        verdict
     }
 
     pub fn alive(&self) -> String {
